@@ -8,6 +8,7 @@ package main
 
 import (
 	"bytes"
+	"context"
 	"encoding/base64"
 	"encoding/json"
 	"errors"
@@ -18,8 +19,10 @@ import (
 	"net/http/httptest"
 	"net/url"
 	"os"
+	"runtime"
 	"sort"
 	"strings"
+	"sync"
 	"time"
 
 	c "github.com/buzzfeed/sso/internal/zz_verif/common"
@@ -40,52 +43,200 @@ type pcall struct {
 	Token   string   `json:"token"`
 	Email   string   `json:"email,omitempty"`
 	Allowed []string `json:"allowed,omitempty"`
+	key     string   // the request-supplied value that identifies the calling request
+}
+
+// regEntry: what the provider answers to the request that carries a given refresh token /
+// e-mail / access token (every generated request has its own), and the gate ticket of that
+// request when it runs with others in flight.
+type regEntry struct {
+	sc script
+	t  *ticket
 }
 
 type fakeProvider struct {
 	*providers.ProviderData
-	calls      []pcall
-	refreshTok string
-	refreshExp time.Duration
-	refreshErr error
-	groups     []string
-	groupsErr  error
-	valid      bool
+	mu    sync.Mutex
+	calls []pcall
+	reg   map[string]*regEntry
+}
+
+func (f *fakeProvider) enter(pc pcall, key string) *regEntry {
+	f.mu.Lock()
+	pc.key = key
+	f.calls = append(f.calls, pc)
+	e := f.reg[key]
+	f.mu.Unlock()
+	if e != nil && e.t != nil {
+		e.t.providerGate() // hold the call until every request of the batch is at (or past) its own
+	}
+	return e
+}
+
+func (f *fakeProvider) takeCalls() []pcall {
+	f.mu.Lock()
+	defer f.mu.Unlock()
+	cs := f.calls
+	f.calls = nil
+	return cs
+}
+
+func (f *fakeProvider) register(keys []string, e *regEntry) {
+	f.mu.Lock()
+	defer f.mu.Unlock()
+	if f.reg == nil {
+		f.reg = map[string]*regEntry{}
+	}
+	for _, k := range keys {
+		if e == nil {
+			delete(f.reg, k)
+		} else {
+			f.reg[k] = e
+		}
+	}
 }
 
 func (f *fakeProvider) SetStatsdClient(*statsd.Client) {}
 func (f *fakeProvider) Redeem(string, string) (*sessions.SessionState, error) {
-	f.calls = append(f.calls, pcall{Kind: "redeem"})
+	f.enter(pcall{Kind: "redeem"}, "")
 	return nil, errors.New("unexpected provider redeem")
 }
 func (f *fakeProvider) ValidateSessionState(s *sessions.SessionState) bool {
-	f.calls = append(f.calls, pcall{Kind: "validate", Token: s.AccessToken})
-	return f.valid
+	e := f.enter(pcall{Kind: "validate", Token: s.AccessToken}, s.AccessToken)
+	return e != nil && e.sc.Valid
 }
 func (f *fakeProvider) GetSignInURL(string, string) string { return "http://idp.invalid/" }
 func (f *fakeProvider) RefreshSessionIfNeeded(*sessions.SessionState) (bool, error) {
-	f.calls = append(f.calls, pcall{Kind: "refresh_if_needed"})
+	f.enter(pcall{Kind: "refresh_if_needed"}, "")
 	return false, nil
 }
 func (f *fakeProvider) ValidateGroupMembership(email string, allowed []string, token string) ([]string, error) {
-	f.calls = append(f.calls, pcall{Kind: "groups", Email: email, Allowed: append([]string{}, allowed...), Token: token})
-	if f.groupsErr != nil {
-		return nil, f.groupsErr
+	e := f.enter(pcall{Kind: "groups", Email: email, Allowed: append([]string{}, allowed...), Token: token}, email)
+	if e == nil {
+		return nil, errors.New("request not known to the fake provider")
 	}
-	return append([]string{}, f.groups...), nil
+	if e.sc.GroupsErr != "" {
+		return nil, provErrs[e.sc.GroupsErr]
+	}
+	return append([]string{}, e.sc.Groups...), nil
 }
 func (f *fakeProvider) Revoke(*sessions.SessionState) error {
-	f.calls = append(f.calls, pcall{Kind: "revoke"})
+	f.enter(pcall{Kind: "revoke"}, "")
 	return nil
 }
 func (f *fakeProvider) RefreshAccessToken(tok string) (string, time.Duration, error) {
-	f.calls = append(f.calls, pcall{Kind: "refresh", Token: tok})
-	if f.refreshErr != nil {
-		return "", 0, f.refreshErr
+	e := f.enter(pcall{Kind: "refresh", Token: tok}, tok)
+	if e == nil {
+		return "", 0, errors.New("request not known to the fake provider")
 	}
-	return f.refreshTok, f.refreshExp, nil
+	if e.sc.RefreshErr != "" {
+		return "", 0, provErrs[e.sc.RefreshErr]
+	}
+	return e.sc.RefreshTok, time.Duration(e.sc.RefreshExp) * time.Second, nil
 }
 func (f *fakeProvider) Stop() {}
+
+// ---------------------------------------------------------------------------------------------
+// gates for the concurrent runs. A batch of n requests shares one barrier with two phases:
+//   phase 1: a request that calls the provider is held inside the call until every request of the
+//            batch is inside its own provider call or already past the point where it could make one;
+//   phase 2: every request is held at its first Write/WriteHeader (the response is computed, not yet
+//            written) until all n are there.
+// Every request passes each phase exactly once, so the schedule does not depend on timing; a 5 s
+// safety timeout only guards against a handler that never returns.
+
+type barrier struct {
+	mu       sync.Mutex
+	n        int
+	c1, c2   int
+	ch1, ch2 chan struct{}
+}
+
+func newBarrier(n int) *barrier {
+	return &barrier{n: n, ch1: make(chan struct{}), ch2: make(chan struct{})}
+}
+
+func (b *barrier) arrive(phase int) chan struct{} {
+	b.mu.Lock()
+	defer b.mu.Unlock()
+	if phase == 1 {
+		b.c1++
+		if b.c1 == b.n {
+			close(b.ch1)
+		}
+		return b.ch1
+	}
+	b.c2++
+	if b.c2 == b.n {
+		close(b.ch2)
+	}
+	return b.ch2
+}
+
+func waitFor(ch chan struct{}) {
+	select {
+	case <-ch:
+	case <-time.After(5 * time.Second):
+	}
+}
+
+type ticket struct {
+	b        *barrier
+	mu       sync.Mutex
+	at1, at2 bool
+}
+
+func (t *ticket) providerGate() {
+	t.mu.Lock()
+	first := !t.at1
+	t.at1 = true
+	t.mu.Unlock()
+	if first {
+		waitFor(t.b.arrive(1))
+	}
+}
+
+func (t *ticket) writeGate() {
+	t.mu.Lock()
+	f1, f2 := !t.at1, !t.at2
+	t.at1, t.at2 = true, true
+	t.mu.Unlock()
+	if f1 {
+		t.b.arrive(1)
+	}
+	if f2 {
+		waitFor(t.b.arrive(2))
+	}
+}
+
+type ctxKey struct{}
+
+type gateWriter struct {
+	http.ResponseWriter
+	t *ticket
+}
+
+func (g *gateWriter) Write(p []byte) (int, error) {
+	g.t.writeGate()
+	return g.ResponseWriter.Write(p)
+}
+func (g *gateWriter) WriteHeader(code int) {
+	g.t.writeGate()
+	g.ResponseWriter.WriteHeader(code)
+}
+
+// gated passes the request through unchanged unless it carries a ticket
+func gated(next http.Handler) http.Handler {
+	return http.HandlerFunc(func(rw http.ResponseWriter, req *http.Request) {
+		t, _ := req.Context().Value(ctxKey{}).(*ticket)
+		if t == nil {
+			next.ServeHTTP(rw, req)
+			return
+		}
+		defer t.writeGate() // a handler that returns without writing has also "arrived"
+		next.ServeHTTP(&gateWriter{ResponseWriter: rw, t: t}, req)
+	})
+}
 
 // ---------------------------------------------------------------------------------------------
 // worlds: one real authenticator per client configuration
@@ -153,9 +304,11 @@ func newWorld(id, secret string) *world {
 	a, err := newAuthenticator(cfg, prov)
 	c.Must(err)
 	w := &world{id: id, secret: secret, valid: cfg.Validate() == nil, a: a, prov: prov}
-	w.bare = a.ServeMux
+	// [gated] sits directly in front of the authenticator's mux (inside the timeout handler, which
+	// buffers the response) and does nothing for a request that runs alone
+	w.bare = gated(a.ServeMux)
 	// cmd/sso-auth/main.go:47-55
-	w.chain = auth.NewLoggingHandler(ioutil.Discard, http.TimeoutHandler(a.ServeMux, 45*time.Second, ""), false, nil)
+	w.chain = auth.NewLoggingHandler(ioutil.Discard, http.TimeoutHandler(gated(a.ServeMux), 45*time.Second, ""), false, nil)
 	return w
 }
 
@@ -279,6 +432,7 @@ type gen struct {
 	foreign *aead.MiscreantCipher
 	worlds  []*world
 	n       int
+	seq     int // request number: makes every request's tokens and e-mail unique
 }
 
 func (g *gen) wrongOf(right string) string {
@@ -488,7 +642,7 @@ func (g *gen) corrupt(v string) string {
 	return v[h:] + v[:h]
 }
 
-func (g *gen) genCode(base time.Time) codeSpec {
+func (g *gen) genCode(base time.Time, hot bool) codeSpec {
 	r := g.r
 	g.n++
 	fresh := sess{Email: fmt.Sprintf("zqEM%d@mark.example.test", g.n), Access: fmt.Sprintf("zqAT%dx", g.n),
@@ -498,6 +652,9 @@ func (g *gen) genCode(base time.Time) codeSpec {
 	fresh.RefreshOff, fresh.LifeOff = pos[r.Intn(3)], pos[r.Intn(3)]
 	if r.Chance(0.1) {
 		fresh.Refresh = "" // a session without refresh token redeems like any other
+	}
+	if hot && r.Chance(0.6) {
+		return codeSpec{Kind: 1, Value: g.sealWith(g.code, base, fresh), S: &fresh}
 	}
 	switch r.Intn(16) {
 	case 0:
@@ -552,22 +709,34 @@ type obs struct {
 	Expires *int64            `json:"expires_in"`
 	Groups  *[]string         `json:"groups"`
 	Leak    bool              `json:"secret_marker_in_response"`
+	Foreign bool              `json:"other_requests_secret_in_response"`
 }
 
-func optS(m map[string]string, k string) string {
-	if v, ok := m[k]; ok {
-		return "(Some " + c.Str(v) + ")"
+// prepared is a generated request with everything the model needs, before it is run
+type prepared struct {
+	w    *world
+	spec reqSpec
+	sc   script
+	code codeSpec
+	base time.Time
+	tab  []tabEntry
+	keys []string // request-supplied values by which the fake provider recognises this request
+}
+
+func (p *prepared) markers() []string {
+	var m []string
+	if p.code.S != nil {
+		m = append(m, p.code.S.Access, p.code.S.Email)
+		if p.code.S.Refresh != "" {
+			m = append(m, p.code.S.Refresh)
+		}
 	}
-	return "None"
+	m = append(m, p.sc.RefreshTok)
+	return append(m, p.sc.Groups...)
 }
 
-func (g *gen) runCase(w *world, spec reqSpec, sc script, code codeSpec, base time.Time, tab []tabEntry) c.Case {
-	// script the provider
-	p := w.prov
-	p.calls = nil
-	p.refreshTok, p.refreshExp, p.refreshErr = sc.RefreshTok, time.Duration(sc.RefreshExp)*time.Second, provErrs[sc.RefreshErr]
-	p.groups, p.groupsErr, p.valid = sc.Groups, provErrs[sc.GroupsErr], sc.Valid
-
+func (p *prepared) execute(t *ticket) (rec *httptest.ResponseRecorder, panicked bool) {
+	spec := p.spec
 	req := httptest.NewRequest("POST", "http://sso-auth.example.test"+spec.Path, bytes.NewReader([]byte(spec.Body)))
 	req.Method = spec.Method
 	req.URL.RawQuery = spec.Query
@@ -580,21 +749,107 @@ func (g *gen) runCase(w *world, spec reqSpec, sc script, code codeSpec, base tim
 	for _, h := range spec.Headers {
 		req.Header.Add(h.K, h.V)
 	}
-	rec := httptest.NewRecorder()
-	h := w.bare
-	if spec.Pre {
-		h = w.chain
+	if t != nil {
+		req = req.WithContext(context.WithValue(req.Context(), ctxKey{}, t))
 	}
-	panicked := false
-	func() {
-		defer func() {
-			if e := recover(); e != nil {
-				panicked = true
-			}
-		}()
-		h.ServeHTTP(rec, req)
+	rec = httptest.NewRecorder()
+	h := p.w.bare
+	if spec.Pre {
+		h = p.w.chain
+	}
+	defer func() {
+		if e := recover(); e != nil {
+			panicked = true
+		}
 	}()
-	o := obs{Status: rec.Code, Calls: append([]pcall{}, p.calls...), Fields: map[string]string{}}
+	h.ServeHTTP(rec, req)
+	return
+}
+
+// runSeq: the request alone
+func (g *gen) runSeq(p *prepared) c.Case {
+	p.w.prov.register(p.keys, &regEntry{sc: p.sc})
+	p.w.prov.takeCalls()
+	rec, panicked := p.execute(nil)
+	calls := p.w.prov.takeCalls()
+	p.w.prov.register(p.keys, nil)
+	return g.emit(p, g.observe(p, rec, panicked, calls, nil), 0)
+}
+
+// runBatch: all requests in flight at once through the real handler chains, held by the gates
+func (g *gen) runBatch(ps []*prepared, oneProc bool) []c.Case {
+	b := newBarrier(len(ps))
+	tickets := make([]*ticket, len(ps))
+	for i, p := range ps {
+		tickets[i] = &ticket{b: b}
+		p.w.prov.register(p.keys, &regEntry{sc: p.sc, t: tickets[i]})
+		p.w.prov.takeCalls()
+	}
+	mode := 1
+	if oneProc { // one P: the goroutines interleave only at the gates, and per-P caches (sync.Pool) are shared
+		mode = 2
+		defer runtime.GOMAXPROCS(runtime.GOMAXPROCS(1))
+	}
+	recs := make([]*httptest.ResponseRecorder, len(ps))
+	pan := make([]bool, len(ps))
+	var wg sync.WaitGroup
+	for i := range ps {
+		wg.Add(1)
+		go func(i int) {
+			defer wg.Done()
+			recs[i], pan[i] = ps[i].execute(tickets[i])
+		}(i)
+	}
+	wg.Wait()
+	// provider calls are attributed to requests by the token / e-mail they carry
+	var all []pcall
+	seen := map[*fakeProvider]bool{}
+	for _, p := range ps {
+		if !seen[p.w.prov] {
+			seen[p.w.prov] = true
+			all = append(all, p.w.prov.takeCalls()...)
+		}
+		p.w.prov.register(p.keys, nil)
+	}
+	owner := map[string]int{}
+	for i, p := range ps {
+		for _, k := range p.keys {
+			owner[k] = i
+		}
+	}
+	per := make([][]pcall, len(ps))
+	for _, pc := range all {
+		if i, ok := owner[pc.key]; ok && pc.key != "" {
+			per[i] = append(per[i], pc)
+		} else { // nobody's: shown to every request of the batch, where it cannot be expected
+			for i := range per {
+				per[i] = append(per[i], pc)
+			}
+		}
+	}
+	out := make([]c.Case, len(ps))
+	for i, p := range ps {
+		var foreign []string
+		for j, q := range ps {
+			if j != i {
+				foreign = append(foreign, q.markers()...)
+			}
+		}
+		out[i] = g.emit(p, g.observe(p, recs[i], pan[i], per[i], foreign), mode)
+	}
+	return out
+}
+
+func optS(m map[string]string, k string) string {
+	if v, ok := m[k]; ok {
+		return "(Some " + c.Str(v) + ")"
+	}
+	return "None"
+}
+
+func (g *gen) observe(p *prepared, rec *httptest.ResponseRecorder, panicked bool, calls []pcall, foreign []string) obs {
+	code, sc := p.code, p.sc
+	o := obs{Status: rec.Code, Calls: append([]pcall{}, calls...), Fields: map[string]string{}}
 	if panicked {
 		o.Status = 999
 	}
@@ -638,13 +893,23 @@ func (g *gen) runCase(w *world, spec reqSpec, sc script, code codeSpec, base tim
 			markers = append(markers, code.S.Refresh)
 		}
 	}
-	markers = append(markers, sc.RefreshTok, "zqGRP")
+	markers = append(markers, sc.RefreshTok)
+	markers = append(markers, sc.Groups...)
 	for _, m := range markers {
 		if m != "" && strings.Contains(hay, m) {
 			o.Leak = true
 		}
 	}
+	for _, m := range foreign {
+		if m != "" && strings.Contains(hay, m) {
+			o.Foreign = true
+		}
+	}
+	return o
+}
 
+func (g *gen) emit(p *prepared, o obs, mode int) c.Case {
+	w, spec, sc, code, tab := p.w, p.spec, p.sc, p.code, p.tab
 	// ---- Coq term ----
 	ct := spec.CType
 	if ct == "" {
@@ -697,12 +962,12 @@ func (g *gen) runCase(w *world, spec reqSpec, sc script, code codeSpec, base tim
 	if code.S != nil {
 		cs = "(Some " + code.S.coq() + ")"
 	}
-	coq := fmt.Sprintf("CReq {| cfg_id := %s; cfg_secret := %s; cfg_code_key := 1; cfg_cookie_key := 2 |} %s %s\n %s\n %s %s %s %s\n %s %s %s %s\n %s %s %s %s",
-		c.Str(w.id), c.Str(w.secret), c.Bool(w.valid), c.Bool(spec.Pre), rq,
+	coq := fmt.Sprintf("CReq %d {| cfg_id := %s; cfg_secret := %s; cfg_code_key := 1; cfg_cookie_key := 2 |} %s %s\n %s\n %s %s %s %s\n %s %s %s %s\n %s %s %s %s %s",
+		mode, c.Str(w.id), c.Str(w.secret), c.Bool(w.valid), c.Bool(spec.Pre), rq,
 		c.List(tabs), ref, grp, c.Bool(sc.Valid),
 		c.Strs(spec.IDs), c.Strs(spec.Secrets), c.N(code.Kind), cs,
-		c.N(o.Status), c.List(calls), bodyC, c.Bool(o.Leak))
-	js2 := map[string]interface{}{"kind": "request", "client_id": w.id, "client_secret": w.secret, "config_valid": w.valid,
+		c.N(o.Status), c.List(calls), bodyC, c.Bool(o.Leak), c.Bool(o.Foreign))
+	js2 := map[string]interface{}{"kind": "request", "mode": []string{"alone", "in flight with the rest of its batch", "in flight with the rest of its batch, GOMAXPROCS(1)"}[mode], "client_id": w.id, "client_secret": w.secret, "config_valid": w.valid,
 		"request": spec, "code_kind": code.Kind, "provider_script": sc, "observed": o}
 	if len(spec.Body) > 400 {
 		cp := spec
@@ -722,10 +987,13 @@ type fixed struct {
 	pre               bool
 }
 
-func (g *gen) genCase(fx *fixed) c.Case {
+func (g *gen) genCase(fx *fixed, hot bool) *prepared {
 	r := g.r
+	g.seq++
 	w := g.worlds[0]
-	if fx == nil && r.Chance(0.12) {
+	if hot {
+		w = g.worlds[r.Intn(2)]
+	} else if fx == nil && r.Chance(0.12) {
 		w = g.worlds[1+r.Intn(len(g.worlds)-1)]
 	}
 	base := time.Now().Truncate(time.Second)
@@ -753,7 +1021,7 @@ func (g *gen) genCase(fx *fixed) c.Case {
 	}
 	idPick, secPick := -1, -1
 	junkP := 1.0
-	if fx == nil && r.Chance(0.45) {
+	if fx == nil && (hot || r.Chance(0.45)) {
 		// mostly-valid stream: allowed method, placements that pass (among them the duplicated and
 		// conflicting ones that pass), so that the handlers behind the gates are exercised
 		spec.Path, spec.Method = ep.path, ep.method
@@ -801,10 +1069,10 @@ func (g *gen) genCase(fx *fixed) c.Case {
 			q = insert(q, pair{k, v})
 		}
 	}
-	sc := script{RefreshTok: fmt.Sprintf("zqNEWAT%dx", g.n), RefreshExp: int64(60 * (1 + r.Intn(120))), Valid: r.Chance(0.7),
+	sc := script{RefreshTok: fmt.Sprintf("zqNEWAT%dx", g.seq), RefreshExp: int64(60 * (1 + r.Intn(120))), Valid: r.Chance(0.7),
 		Groups: []string{}}
 	for i, n := 0, r.Intn(3); i < n; i++ {
-		sc.Groups = append(sc.Groups, fmt.Sprintf("zqGRP%d", r.Intn(5)))
+		sc.Groups = append(sc.Groups, fmt.Sprintf("zqGRP%d_%d", g.seq, i))
 	}
 	if r.Chance(0.25) {
 		sc.RefreshErr = r.Pick([]string{"400", "401", "429", "503", "500"})
@@ -814,9 +1082,10 @@ func (g *gen) genCase(fx *fixed) c.Case {
 	}
 	var code codeSpec
 	var tab []tabEntry
+	var keys []string
 	switch ep.path {
 	case "/redeem":
-		code = g.genCode(base)
+		code = g.genCode(base, hot)
 		if code.Kind != 0 || r.Chance(0.5) {
 			place("code", code.Value, 0.8)
 		}
@@ -829,7 +1098,8 @@ func (g *gen) genCase(fx *fixed) c.Case {
 		case 1:
 			place("refresh_token", "", 0.8)
 		default:
-			place("refresh_token", fmt.Sprintf("rt-req-%d", r.Intn(1000)), 0.8)
+			keys = append(keys, fmt.Sprintf("rt-req-%d", g.seq))
+			place("refresh_token", keys[len(keys)-1], 0.8)
 		}
 	case "/profile":
 		switch r.Intn(8) {
@@ -837,7 +1107,8 @@ func (g *gen) genCase(fx *fixed) c.Case {
 		case 1:
 			place("email", "", 0.3)
 		default:
-			place("email", r.Pick([]string{"u@example.test", "ü ser+x@example.test", "a&b=c@example.test"}), 0.3)
+			keys = append(keys, fmt.Sprintf(r.Pick([]string{"u%d@example.test", "ü ser+%d@example.test", "a&b=c%d@example.test"}), g.seq))
+			place("email", keys[len(keys)-1], 0.3)
 		}
 		if r.Chance(0.7) {
 			place("groups", r.Pick([]string{"", "g1", "g1,g2", ",", "a,,b", "g 1,g+2"}), 0.3)
@@ -849,7 +1120,8 @@ func (g *gen) genCase(fx *fixed) c.Case {
 		case 1:
 			spec.Headers = append(spec.Headers, pair{"X-Access-Token", ""})
 		default:
-			spec.Headers = append(spec.Headers, pair{"X-Access-Token", fmt.Sprintf("at-req-%d", r.Intn(1000))})
+			keys = append(keys, fmt.Sprintf("at-req-%d", g.seq))
+			spec.Headers = append(spec.Headers, pair{"X-Access-Token", keys[len(keys)-1]})
 		}
 	}
 	if r.Chance(0.3) {
@@ -871,7 +1143,7 @@ func (g *gen) genCase(fx *fixed) c.Case {
 	default:
 		spec.Body = render(r, b, bj)
 	}
-	return g.runCase(w, spec, sc, code, base, tab)
+	return &prepared{w: w, spec: spec, sc: sc, code: code, base: base, tab: tab, keys: keys}
 }
 
 // ---------------------------------------------------------------------------------------------
@@ -948,7 +1220,7 @@ func main() {
 		for _, m := range []string{"GET", "POST", "PUT", "DELETE"} {
 			for _, pre := range []bool{false, true} {
 				for _, ct := range []string{"application/x-www-form-urlencoded", "application/json", ""} {
-					cases = append(cases, g.genCase(&fixed{ep: ep.path, method: m, ctype: ct, pre: pre, idCase: -1, secCase: -1}))
+					cases = append(cases, g.runSeq(g.genCase(&fixed{ep: ep.path, method: m, ctype: ct, pre: pre, idCase: -1, secCase: -1}, false)))
 				}
 			}
 		}
@@ -988,15 +1260,33 @@ func main() {
 				for sc := 0; sc < 18; sc++ {
 					for _, ct := range []string{"application/x-www-form-urlencoded", "application/json"} {
 						for _, pre := range []bool{false, true} {
-							cases = append(cases, g.genCase(&fixed{ep: ep.path, method: ep.method, ctype: ct, pre: pre, idCase: idc, secCase: sc}))
+							cases = append(cases, g.runSeq(g.genCase(&fixed{ep: ep.path, method: ep.method, ctype: ct, pre: pre, idCase: idc, secCase: sc}, false)))
 						}
 					}
 				}
 			}
 		}
 	}
-	for i := 0; i < a.N; i++ {
-		cases = append(cases, g.genCase(nil))
+	// generated requests come in batches of 4-16: each is first run alone, then the whole batch is
+	// run again with all its requests in flight at once (half of the batches under GOMAXPROCS(1));
+	// "hot" batches are mostly-valid requests of the two valid configurations, so that several
+	// handlers produce a 2xx body at the same time. Every observation is one case, judged against
+	// its own request by the same model and monitor.
+	for done := 0; done < a.N; {
+		k := 4 + g.r.Intn(13)
+		if k > a.N-done {
+			k = a.N - done
+		}
+		hot := g.r.Chance(0.5)
+		ps := make([]*prepared, k)
+		for i := range ps {
+			ps[i] = g.genCase(nil, hot)
+			cases = append(cases, g.runSeq(ps[i]))
+		}
+		if k >= 2 {
+			cases = append(cases, g.runBatch(ps, g.r.Chance(0.5))...)
+		}
+		done += k
 	}
 	c.Must(c.WriteShards(a.Out, "Corr_C08", cases, a.Shard))
 	fmt.Printf("cases=%d\n", len(cases))
